@@ -3,22 +3,22 @@
 (* diagonal), every pair / single of deflation vectors with entries in {0, 1, -1}   *)
 (* taken from a fixed family, right-hand sides and start vectors unit vectors.      *)
 EXTENDS Deflation, Patterns, TLC
-VARIABLES km, zs, pc
+VARIABLES km, zs, aa, zz, ee, ei, pc
 Zfam == << <<1, 1, 1>>, <<1, 0, 0>>, <<0, 1, -1>>, <<1, -1, 0>>, <<0, 0, 1>> >>
-A == [i \in 1..3 |-> [j \in 1..3 |-> IF i = j THEN R(3 + (i % 2)) ELSE IF Bit(km, (i - 1) * 3 + j - 1) THEN R(PatVal(i - 1, j - 1, 1)) ELSE RZero]]
-Z == [k \in 1..Len(zs) |-> RV(Zfam[zs[k]])]
+AOf(m) == [i \in 1..3 |-> [j \in 1..3 |-> IF i = j THEN R(3 + (i % 2)) ELSE IF Bit(m, (i - 1) * 3 + j - 1) THEN R(PatVal(i - 1, j - 1, 1)) ELSE RZero]]
+ZOf(s) == [k \in 1..Len(s) |-> RV(Zfam[s[k]])]
+\* the matrix, the vectors, E and its inverse are computed once per configuration
 Init == /\ km \in {k \in Masks(3, 3) : HasDiag(3, k)}
         /\ zs \in {<<a>> : a \in 1..5} \cup {<<a, b>> : a \in 1..5, b \in 1..5} \cup {<<1, 2, 3>>, <<2, 3, 5>>}
+        /\ aa = AOf(km) /\ zz = ZOf(zs) /\ ee = ERun(aa, zz)
+        /\ ei = IF Regular(ee) /\ Regular(aa) THEN InverseM(ee) ELSE <<>>
         /\ pc = "init"
-Next == pc = "init" /\ pc' = "project" /\ UNCHANGED <<km, zs>>
-E == ERun(A, Z)
-Ok == Regular(E) /\ Regular(A)
-EInv == pc = "init" => EOK(A, Z)
-ProjInv == (pc = "project" /\ Ok) =>
-    LET Ei == InverseM(E)
-    IN  /\ \A jb \in 1..3 : \A jx \in 0..3 :
-              DeflationOrthogonalOK(A, Z, UnitV(3, jb), ProjectRun(A, Z, Ei, UnitV(3, jb), IF jx = 0 THEN ZeroV(3) ELSE UnitV(3, jx)))
-        /\ \A jb \in 1..3 : SolutionFixedOK(A, Z, Ei, UnitV(3, jb))
-        \* apply = P then project, for P = 0 and P = a diagonal scaling
-        /\ \A jb \in 1..3 : DeflationOrthogonalOK(A, Z, UnitV(3, jb), DeflApply(A, Z, Ei, LAMBDA v : VScaleR(<<1, 3>>, v), UnitV(3, jb)))
+Next == pc = "init" /\ pc' = "project" /\ UNCHANGED <<km, zs, aa, zz, ee, ei>>
+EInv == pc = "init" => MEq(ee, EDef(aa, zz))
+ProjInv == (pc = "project" /\ ei # <<>>) =>
+    /\ \A jb \in 1..3 : \A jx \in 0..3 :
+          DeflationOrthogonalOK(aa, zz, UnitV(3, jb), ProjectRun(aa, zz, ei, UnitV(3, jb), IF jx = 0 THEN ZeroV(3) ELSE UnitV(3, jx)))
+    /\ \A jb \in 1..3 : SolutionFixedOK(aa, zz, ei, UnitV(3, jb))
+    \* apply = P then project, for a diagonal scaling as P
+    /\ \A jb \in 1..3 : DeflationOrthogonalOK(aa, zz, UnitV(3, jb), DeflApply(aa, zz, ei, LAMBDA v : VScaleR(<<1, 3>>, v), UnitV(3, jb)))
 =============================================================================
